@@ -9,7 +9,7 @@ pub proof fn lemma_wait_fact_stable(id: PartId, r: crate::rpc::WaitRes, a: Node,
 //@ ghostparam Tracked(n): Tracked<&mut Node>
 //@ implicit [C06,C15]
 //@ bind tasks /let mut (\w+) = FuturesUnordered::new\(\);/
-//@ bind res /while let Some\((\w+)\) = \w+\.next\(\)/
+//@ bind res /(?:while|if) let Some\((\w+)\) = \w+\.next\(\)/
 //@ bind pending /for \w+ in (\w+)\.payments/
 //@ requires#wf
       node_wf(*old(n)) && payment_hash == old(n).hash
@@ -46,7 +46,7 @@ pub proof fn lemma_wait_fact_stable(id: PartId, r: crate::rpc::WaitRes, a: Node,
       assert forall|j: int| 0 <= j < tb.len() implies crate::rpc::wait_fact(tb[j].0, tb[j].1, *n) by {
           lemma_wait_fact_stable(tb[j].0, tb[j].1, nb, *n);
       }
-//@ ghost before_stmt /^while let Some\($res\) = $tasks\.next\(\)/
+//@ ghost before_stmt /^(?:while|if) let Some\($res\) = $tasks\.next\(\)/
       let ghost mut tg = $tasks.view();
       proof {
           assert forall|i: int| 0 <= i < PL.len() implies (gone(part_id(#[trigger] PL[i]), *n)
